@@ -181,7 +181,7 @@ class ModelEval(Evaluator):
             return self.hooks["builtins"][nid]
         if nid in ("True", "False", "None"):
             return {"True": True, "False": False, "None": None}[nid]
-        if nid in ("isinstance", "hasattr", "getattr", "setattr", "super", "print", "callable", "type", "NotImplemented", "eval"):
+        if nid in ("isinstance", "hasattr", "getattr", "setattr", "super", "print", "callable", "type", "NotImplemented", "eval", "__class_assigned__"):
             return Marker("builtin", nid)
         if nid in BUILTIN_TYPES and nid in ("int", "float", "str", "bool", "dict", "list", "tuple", "set", "object", "complex"):
             return Marker("type", BUILTIN_TYPES[nid])
@@ -217,8 +217,7 @@ class ModelEval(Evaluator):
                     val = sub.ev(v)
                 except Unsupported as e:
                     raise Unsupported("module-level value %s: %s" % (key, e))
-                if isinstance(val, (dict, list, set, PyObj)):
-                    state[key] = val
+                state[key] = val         # evaluated ONCE: mutable tables keep their contents, sentinels (`_MISSING = object()`) their identity
                 return val
             raise Unsupported("module-level value %s" % key)
         raise Unsupported("unbound name %s" % what)
@@ -652,6 +651,13 @@ class ModelEval(Evaluator):
             except SyntaxError as e:
                 raise Raised("SyntaxError", node, str(e))
             return self.ev(expr)
+        if name == "__class_assigned__":
+            # a method installed by assignment in the class body (see sa/source.py): the assigned value, called with the instance first
+            obj, attr = args[0], args[1]
+            found, val = self.class_attr(obj._cls, attr)
+            if not found:
+                raise Unsupported("class attribute %s.%s" % (obj._cls.name, attr))
+            return self.call(node, val, [obj] + list(args[2:]), kwargs)
         if name == "isinstance":
             return self.isinstance_(args[0], args[1])
         if name == "hasattr":
